@@ -538,10 +538,64 @@ def specialise(body, avoid, crate=None):
             elif vals == {False} and zero and (sb, t["otherwise"]) not in avoid and zero[0] != t["otherwise"]:
                 avoid.add((sb, t["otherwise"]))
                 changed = True
+        # integer tests whose operand can only hold constants inside the still-reachable part
+        # (`let n = match x { Some(v) => f(v), None => 0 }; if n == 0 {..}` under x = None)
+        for sb, t in body.switches():
+            if sb not in R or t["op"].get("k") not in ("copy", "move") or t["op"]["place"]["p"]:
+                continue
+            l = t["op"]["place"]["l"]
+            ty = body.locals[l]["ty"]
+            dead = set()
+            if ty == "bool":
+                ds = [d for d in body.defs().get(l, ()) if d["kind"] != "param"]
+                if len(ds) != 1 or ds[0]["kind"] != "assign" or ds[0]["rv"]["k"] != "bin" or ds[0]["rv"]["op"] not in _INT_CMP:
+                    continue
+                rv = ds[0]["rv"]
+                xs, ys = _int_consts(body, rv["a"], ds[0]["bb"], R), _int_consts(body, rv["b"], ds[0]["bb"], R)
+                if xs is None or ys is None:
+                    continue
+                outs = {_INT_CMP[rv["op"]](x, y) for x in xs for y in ys}
+                zero = [tb for v, tb in t["targets"] if v == 0]
+                if len(outs) != 1 or not zero or zero[0] == t["otherwise"]:
+                    continue
+                dead.add((sb, zero[0]) if outs == {True} else (sb, t["otherwise"]))
+            elif _is_int_ty(ty):
+                xs = _int_consts(body, t["op"], sb, R)
+                if xs is None:
+                    continue
+                tv = {v for v, tb in t["targets"]}
+                for v, tb in t["targets"]:
+                    if v not in xs and tb != t["otherwise"] and not any(v2 in xs and tb2 == tb for v2, tb2 in t["targets"]):
+                        dead.add((sb, tb))
+                if xs <= tv and not any(tb == t["otherwise"] and v in xs for v, tb in t["targets"]):
+                    dead.add((sb, t["otherwise"]))
+            for e in dead:
+                if e not in avoid:
+                    avoid.add(e)
+                    changed = True
         if not changed:
             break
         R = body.reach([0], avoid_edges=avoid)
     return R, avoid
+
+
+_INT_CMP = {"Eq": lambda a, b: a == b, "Ne": lambda a, b: a != b, "Lt": lambda a, b: a < b, "Le": lambda a, b: a <= b,
+            "Gt": lambda a, b: a > b, "Ge": lambda a, b: a >= b}
+
+
+def _is_int_ty(ty):
+    return ty in ("u8", "u16", "u32", "u64", "u128", "usize", "i8", "i16", "i32", "i64", "i128", "isize")
+
+
+def _int_consts(body, op, at, R):
+    """The set of integer constants an operand can hold at `at` inside R, or None when it is not a set of constants."""
+    vals = resolve_values(body, op, at, R)
+    out = set()
+    for v in vals:
+        if not (isinstance(v, tuple) and v[0] == "const") or isinstance(v[1], bool) or not isinstance(v[1], int):
+            return None
+        out.add(v[1])
+    return out or None
 
 
 def variant_reach(body, crate, adt, V, place_pred=None, want_avoid=False):
